@@ -96,6 +96,7 @@ func sliceOfParam(v ssa.Value) (*ssa.Parameter, int64, int64, bool) {
 
 func runC02(c *Ctx) {
 	p := c.P
+	sharedDigestRule(c, p, "R7", "transports/obfs4", "common/ntor")
 	dial := obfs4Dial(c)
 	ps := p.funcsCalling("transports/obfs4", idClientHS)
 	o := c.Obl("R0", "anchors", "the obfs4 client path (ClientFactory.Dial) and the function completing the ntor client handshake exist")
